@@ -77,3 +77,8 @@ func Bytes(max int) *rapid.Generator[string] {
 // replaces invalid UTF-8 in strings by U+FFFD, so cases carry raw bytes as a
 // []byte, which is base64-encoded).
 type B = []byte
+
+// BytesLen draws exactly n arbitrary bytes (rapid's SliceOfN is biased to short slices).
+func BytesLen(n int) *rapid.Generator[[]byte] {
+	return rapid.SliceOfN(rapid.Byte(), n, n)
+}
